@@ -104,3 +104,83 @@ def patch_numpy(extra_modules=()):
     for mod in extra_modules:
         if getattr(mod, "default_rng", None) is not None:
             mod.default_rng = sim_default_rng
+
+
+class ScriptHub(Hub):
+    """Scripted mode for categorical draws: `choice(a, size, p=...)` *offers* a distribution and the
+    simulator *decides* the outcome.  Every offer is recorded as (p, size, returned indices).
+
+    policy: "sample" (inverse-CDF with the simulator's own PRNG), "mode" (always the most likely
+    state), "rarest" (always the least likely state of the support), "alternate" (cycle through the
+    support), "extremes" (alternate most / least likely).
+    """
+
+    def __init__(self, rng, policy="sample", yield_at_draw=False):
+        super().__init__(yield_at_draw=yield_at_draw)
+        self.rng = rng
+        self.policy = policy
+        self.offers: list = []  # dicts: p (np.ndarray), size (int), idx (np.ndarray), via
+
+    def decide(self, p, size):
+        p = np.asarray(p, dtype=float)
+        support = np.nonzero(p > 1e-12)[0]
+        if len(support) == 0:
+            support = np.arange(len(p))
+        pol = self.policy
+        if pol == "sample":
+            cdf = np.cumsum(p[support])
+            cdf = cdf / cdf[-1]
+            u = np.array([self.rng.random() for _ in range(size)])
+            return support[np.minimum(np.searchsorted(cdf, u, side="right"), len(support) - 1)]
+        order = support[np.argsort(-p[support], kind="stable")]
+        if pol == "mode":
+            return np.full(size, order[0])
+        if pol == "rarest":
+            return np.full(size, order[-1])
+        if pol == "alternate":
+            return order[np.arange(size) % len(order)]
+        ext = np.array([order[0], order[-1]])
+        return ext[np.arange(size) % 2]
+
+    def on_draw(self, gen, method, args, kwargs):
+        self.draws += 1
+        if method != "choice":
+            return PASS
+        a = args[0] if args else kwargs.get("a")
+        size = args[1] if len(args) > 1 else kwargs.get("size")
+        p = kwargs.get("p", args[3] if len(args) > 3 else None)
+        if p is None or isinstance(a, (int, np.integer)) and False:
+            return PASS
+        a = np.arange(a) if isinstance(a, (int, np.integer)) else np.asarray(a)
+        n = int(np.prod(size)) if size is not None else 1
+        idx = self.decide(p, n)
+        self.offers.append({"p": np.array(p, dtype=float), "size": n, "idx": np.array(idx), "via": "numpy"})
+        out = a[idx]
+        if size is None:
+            return out[0]
+        return out.reshape(size)
+
+
+def patch_jax_choice(get_hub):
+    """Route jax.random.choice(key, a, shape, p=...) through the current ScriptHub (if any)."""
+    import jax
+    import jax.numpy as jnp
+
+    if getattr(jax.random.choice, "_verif_wrapped", False):
+        return
+    real = jax.random.choice
+
+    def choice(key, a, shape=(), replace=True, p=None, axis=0, mode=None):
+        hub = get_hub()
+        if hub is None or p is None or not isinstance(hub, ScriptHub):
+            kw = {} if mode is None else {"mode": mode}
+            return real(key, a, shape, replace, p, axis, **kw)
+        hub.draws += 1
+        arr = np.arange(a) if isinstance(a, (int, np.integer)) else np.asarray(a)
+        n = int(np.prod(shape)) if shape != () else 1
+        idx = hub.decide(np.asarray(p), n)
+        hub.offers.append({"p": np.array(p, dtype=float), "size": n, "idx": np.array(idx), "via": "jax"})
+        return jnp.asarray(arr[idx]).reshape(shape)
+
+    choice._verif_wrapped = True
+    jax.random.choice = choice
